@@ -807,10 +807,14 @@ def run_check(pid, tier, seed):
     for clause, path in res.get("direct_violations", []):
         violations.append(path)
         print("VIOLATION property=%s replay=%s" % (pid, path))
+    infra = [b for b in res.get("bads", []) if b["prop"] == "INFRA"]
+    if infra:
+        # the specification disagrees with a choice the harness made while preparing an input: no verdict
+        raise Infra("infrastructure clause failed: %s %s" % (infra[0]["clause"], json.dumps(case_of(infra[0]))[:400]))
     conf_notes = [b for b in res.get("bads", []) if b["prop"] == "NOTE"]
     for b in conf_notes[:5]:
         print("CONFORMANCE-NOTE property=%s %s %s" % (pid, b["clause"], json.dumps(case_of(b))[:300]))
-    mine = [b for b in res.get("bads", []) if b["prop"] != "NOTE" and (b["prop"] == pid or b["clause"] == "panic" or b.get("conc"))]
+    mine = [b for b in res.get("bads", []) if b["prop"] not in ("NOTE", "INFRA") and (b["prop"] == pid or b["clause"] == "panic" or b.get("conc"))]
     # reproduce at most a bounded number of distinct failing cases
     for b in mine:
         case = case_of(b)
